@@ -1802,3 +1802,80 @@ func ruleC08PropertyNames(c *Ctx) {
 	}
 	c.R.Floor(rule, "evaluations of propertyNames", n, 1)
 }
+
+func init() {
+	for _, pid := range []string{"C12", "C08"} {
+		pid := pid
+		p := Properties[pid]
+		p.Rules = append(p.Rules, Rule{pid + "/nilness-agrees", func(c *Ctx) { ruleNilnessAgrees(c, pid+"/nilness-agrees") }})
+	}
+}
+
+// Equal values must hash alike (uniqueItems compares only within a hash bucket). If the hasher distinguishes a
+// nil container from an empty one (a branch on IsNil for maps or slices), equality must distinguish them too;
+// otherwise a nil map and an empty map are equal for enum/const but land in different buckets.
+func ruleNilnessAgrees(c *Ctx, rule string) {
+	h, eq := c.Hasher(rule), c.Equality(rule)
+	if h == nil || eq == nil {
+		return
+	}
+	nilKinds := func(root *ssa.Function) KindSet {
+		var out KindSet
+		for _, fn := range c.familyFuncs(root) {
+			var subjParam *ssa.Parameter
+			for _, p := range fn.Params {
+				if tReflectValue(p.Type()) && subjParam == nil {
+					subjParam = p
+				}
+			}
+			if subjParam == nil {
+				// a closure of the hasher working on a captured value: use the enclosing function's flow
+				continue
+			}
+			subj := subjectSet(fn, subjParam)
+			kf := KindFlow(fn, func(v ssa.Value) bool { return subj[v] }, nil)
+			core.EachInstr(fn, func(i ssa.Instruction) {
+				call, ok := i.(*ssa.Call)
+				if !ok || core.CalleeKey(&call.Call) != "reflect.Value.IsNil" || !subj[call.Call.Args[0]] {
+					return
+				}
+				// only a test whose outcome selects different behaviour counts: it must feed a branch or a comparison
+				used := false
+				if refs := call.Referrers(); refs != nil {
+					for _, r := range *refs {
+						switch r.(type) {
+						case *ssa.If, *ssa.BinOp, *ssa.UnOp, *ssa.Phi:
+							used = true
+						}
+					}
+				}
+				if used {
+					out |= kf.At(call) & Kinds(kMap, kSlice)
+				}
+			})
+		}
+		return out
+	}
+	// the hasher's recursive writer may be a closure: look at the whole nest of the hasher
+	hk := nilKinds(h)
+	if w := c.hashWriter(h); w != nil && w != h {
+		hk |= nilKinds(outermost(w))
+		for _, f := range core.WithAnon(outermost(w)) {
+			if f != outermost(w) {
+				hk |= nilKinds(f)
+			}
+		}
+	}
+	ek := nilKinds(eq)
+	for _, k := range []struct {
+		name string
+		set  KindSet
+	}{{"map", Kinds(kMap)}, {"slice", Kinds(kSlice)}} {
+		if hk&k.set == 0 {
+			c.R.OK(rule, "hash:"+k.name, c.P.Pos(h.Pos()), "the hasher does not tell a nil "+k.name+" from an empty one")
+			continue
+		}
+		c.R.Check(ek&k.set != 0, rule, "hash:"+k.name, c.P.Pos(h.Pos()), "equality also compares the nilness of a "+k.name,
+			"the hasher writes something else for a nil "+k.name+" than for an empty one, but the equality function does not compare nilness for that kind: a nil and an empty "+k.name+" are equal for enum and const and hash differently, so uniqueItems never compares them")
+	}
+}
